@@ -54,34 +54,8 @@ func (node *Node) processUnconfirmedTx(ctx context.Context, tx handlers.TxData) 
 		logger.Warn(ctx, "Found %d conflicts with %s", len(conflicts), hash)
 		// Notify of attempted double spend
 		for _, conflict := range conflicts {
-			isRelevant, err := node.txs.MarkUnsafe(ctx, conflict)
-			if err != nil {
-				return errors.Wrap(err, "Failed to check tx repo")
-			}
-			if !isRelevant {
-				continue // Only send for txs that previously matched filters.
-			}
-
-			txState, err := handlerstorage.FetchTxState(ctx, node.store, conflict)
-			if err != nil {
-				continue
-			}
-
-			txState.State.UnSafe = true
-			txState.State.Safe = false
-
-			if err := handlerstorage.SaveTxState(ctx, node.store, txState); err != nil {
-				return errors.Wrap(err, "save tx state")
-			}
-
-			update := &client.TxUpdate{
-				TxID:  *txState.Tx.TxHash(),
-				State: txState.State,
-			}
-
-			// Notify of tx conflict
-			for _, handler := range node.handlers {
-				handler.HandleTxUpdate(ctx, update)
+			if err := node.markTxUnsafe(ctx, conflict); err != nil {
+				return err
 			}
 		}
 	}
@@ -103,6 +77,11 @@ func (node *Node) processUnconfirmedTx(ctx context.Context, tx handlers.TxData) 
 	}
 	if !added {
 		logger.Info(ctx, "Tx already added : %s", hash)
+		if len(conflicts) > 0 {
+			// The tx was already delivered (it is no longer in the mempool, for example after a
+			// restart) and conflicts with a tx seen since, so it is unsafe too.
+			return node.markTxUnsafe(ctx, *hash)
+		}
 		if !newlySafe {
 			return nil // tx already processed
 		}
@@ -185,6 +164,42 @@ func (node *Node) processUnconfirmedTx(ctx context.Context, tx handlers.TxData) 
 	// Notify of new tx
 	for _, handler := range node.handlers {
 		handler.HandleTx(ctx, txState)
+	}
+
+	return nil
+}
+
+// markTxUnsafe marks an unconfirmed tx as unsafe because of a conflicting tx and, if it is a tx
+// that was delivered to the handlers, saves and sends that state.
+func (node *Node) markTxUnsafe(ctx context.Context, txid bitcoin.Hash32) error {
+	isRelevant, err := node.txs.MarkUnsafe(ctx, txid)
+	if err != nil {
+		return errors.Wrap(err, "Failed to check tx repo")
+	}
+	if !isRelevant {
+		return nil // Only send for txs that previously matched filters.
+	}
+
+	txState, err := handlerstorage.FetchTxState(ctx, node.store, txid)
+	if err != nil {
+		return nil
+	}
+
+	txState.State.UnSafe = true
+	txState.State.Safe = false
+
+	if err := handlerstorage.SaveTxState(ctx, node.store, txState); err != nil {
+		return errors.Wrap(err, "save tx state")
+	}
+
+	update := &client.TxUpdate{
+		TxID:  *txState.Tx.TxHash(),
+		State: txState.State,
+	}
+
+	// Notify of tx conflict
+	for _, handler := range node.handlers {
+		handler.HandleTxUpdate(ctx, update)
 	}
 
 	return nil
